@@ -112,8 +112,7 @@ def main():
         "not_applicable": na,
         "notes": "Every check: ./check <ID> <quick|thorough>; VERIF_SEED selects the generated stream (default 1). Exit 2 = infrastructure problem or inconclusive (never a violation). known_findings.json lists genuine defects that are recorded rather than repaired, and the ones repaired by fix: commits.",
     }
-    if not na:
-        del m["not_applicable"]
+    # (all twenty properties are claimed: the list stays, empty)
     json.dump(m, open(os.path.join(HERE, "MANIFEST.json"), "w"), indent=1)
     print(f"MANIFEST.json: {len(checks)} checks, {len(na)} not claimed")
 
